@@ -94,6 +94,12 @@ class Run:
         solvers leave this one undecided but discharge all of those, it counts as discharged 'by decomposition'."""
         self.obls.append(Obl(name, list(hyps), goal, level, instance or {}, info, replay, timeout, implied_by))
 
+    def add_smt2(self, name, smt2_text, level="property", instance=None, info=None, timeout=None):
+        """An obligation given directly as SMT-LIB text (assert of the NEGATED goal; unsat = discharged), e.g. string lemmas for cvc5."""
+        o = Obl(name, [], z3.BoolVal(False), level, instance or {}, info, None, timeout)
+        o.smt2 = smt2_text
+        self.obls.append(o)
+
     def add_path_obligations(self, results, prefix, instance=None, level="side", kinds=("assert", "side", "torch-pre", "internal")):
         """Internal obligations met while executing (asserts, divisor-positive, broadcast-compatibility, ...)."""
         for pi, r in enumerate(results):
@@ -133,7 +139,7 @@ class Run:
 
     # ---------------------------------------------------------------- discharge + report
     def finish(self, replay_fn=None):
-        results = solve.discharge([(o.name, o.hyps, o.goal, o.timeout or self.timeout) for o in self.obls], timeout_s=self.timeout)
+        results = solve.discharge([(o.name, o.hyps, o.goal, o.timeout or self.timeout, getattr(o, "smt2", None)) for o in self.obls], timeout_s=self.timeout)
         for o, r in zip(self.obls, results):
             o.result = r
         byname = {o.name: o for o in self.obls}
